@@ -619,10 +619,6 @@ class MTSystem(System):
         return {'blast': 0 if last is None else pickle.loads(last).sid, 'srv': srv,
                 'wlast': None if ls is None else [ls.sid, code('us', ls.root)], 'wk': wk}
 
-    def served(self):
-        qq = self.pool._workers_queue._queue
-        return qq
-
     def mcompile(self, avail, cid, meth, db, us, gs, rc, dc, sc, f):
         q = self.set_queue(avail)
         if not q:
@@ -655,17 +651,13 @@ class MTSystem(System):
                 'sent': self.mt_sent()}
 
     def who(self, before):
-        """the worker the real queue handed out = the one that was moved by release()"""
+        """the worker the real queue handed out: the one whose process received the request; if the
+        request was lost before reaching a process, the worker released to the front of the queue"""
         if Ctl.msgs:
             for w, pid in self.pid_of.items():
                 if self.pool._server.procs.get(pid) is Ctl.served_proc:
                     return w
         after = list(self.pool._workers_queue._queue)
-        for sw in after:
-            if not before or sw is not before[0]:
-                pass
-        # request lost before reaching a process: the released worker is at the front (compile*)
-        # or at the back (compile_in_tx)
         return self.name_of(after[0]) if after else -1
 
     def mt_sent(self):
